@@ -253,7 +253,7 @@ PROPS = {
     ),
     "C18": dict(
         bin="c18",
-        quick=NATIVE_QR, thorough=deep(10),
+        quick=NATIVE_QR, thorough=deep(4),
         floors={"class.corpus": 30, "class.corpus_insert": 500, "class.duration_grammar": 1000, "class.duration_mutated": 1000,
                 "class.datetime_grammar": 1000, "class.datetime_mutated": 1000, "class.random_unicode": 1000, "total.ok_results": 500,
                 "total.err_results": 5000, "wellformed.ok": 2000, "roundtrip.default_ok": 500, "roundtrip.listed_ok": 2000},
